@@ -47,6 +47,7 @@ MC_LOOPS = mcc('MC_Loops', 'MC_Loops', invariants='Inv_Bound Inv_Shrink Inv_Tab;
 MC_CSSTOK = mcc('MC_CssTok', 'MC_CssTok', invariants='(enumeration) every style sheet of at most MaxLen tokens over the alphabet is emitted and replayed: as user / agent sheet (Ok or CssParseError, no panic / hang) and inside <style> against the same document without it')
 MC_CSSSYN = mcc('MC_CssSyntax', 'MC_CssSyntax', invariants='Inv_Syntax (on every well-formed sheet the transcription of parse_stylesheet keeps exactly the rule sets the CSS Syntax reference keeps), Inv_Stop (and reads it to the end); every sheet emitted and replayed')
 MC_CSSSYN_DEEP = mcc('MC_CssSyntax', 'MC_CssSyntaxDeep', invariants='Inv_Syntax, Inv_Stop over a smaller alphabet and longer sheets (blocks nested in declaration values)')
+MC_CSSSYN_COMB = mcc('MC_CssSyntax', 'MC_CssSyntaxComb', invariants='Inv_Syntax, Inv_Stop over selector preludes: compounds, the child combinator, the unsupported sibling combinators + and ~, commas, good rule sets and a selector-less block (sheets of <= 4, thorough 6, atoms over 8)')
 MC_SELECTOR = mcc('MC_Css', 'MC_Selector', invariants='Inv_Selector (RefMatch = DoMatches on every node)')
 MC_SELECTOR_ID = mcc('MC_Css', 'MC_SelectorId', invariants='Inv_Selector over trees and selectors with ids (fewer nodes)')
 MC_SELECTOR_LONG = mcc('MC_Css', 'MC_SelectorLong', invariants='Inv_Selector over selectors of three compounds (fewer nodes, no ids): html / body above the generated nodes give every combinator chain something to walk')
@@ -170,12 +171,12 @@ PLANS = {
     ),
     'C17': dict(
         fams=[('c17', dict(quick=4000, thorough=80000), {})],
-        mc=[MC_CSSTOK, MC_CSSSYN, MC_CSSSYN_DEEP],
+        mc=[MC_CSSTOK, MC_CSSSYN, MC_CSSSYN_DEEP, MC_CSSSYN_COMB],
         model_ok=False,
         drift_prop=dict(src='MC_CssSyntax', prop='C20'),
         timeout_ms=dict(quick=30000, thorough=120000),
         nontrivial=lambda rec: len(rec.get('runs', [])) >= 1 and rec['runs'][0]['res']['k'] in ('ok', 'csserr') and (len(rec['runs']) == 1 or any(len(x) > 2 and any(t[0] in ('Fg', 'Bg') for t in x[2]) for ln in rec['runs'][0]['res']['lines'] for x in ln) or rec['runs'][0]['route'] == 'string'),
-        rule='MC (parser model, CssSyntax.tla): every sheet of <= 4 (thorough 5) atoms over 14 (22) atoms - tokens incl. the child combinator, whole good rule sets and a block without selector - and of <= 5 (7) atoms over 8: invariants on the model, then each sheet in <style> of a fixed document: well-formed sheets against the canonical text of their reference rules (variant), the others for totality, all against the colours the model predicts (drift); MC (enumeration): every sequence of <= 3 (thorough 4) CSS tokens from an alphabet of 26 (30) token spellings, as user sheet, agent sheet and <style> content; random, three shapes: (total) add_css / add_agent_css with truncations of valid sheets, token soup over the CSS token alphabet, byte-mutated sheets: Ok or CssParseError under a watchdog; (inert) a document with <style>s</style> (s without display / content / white-space / height / overflow) against the same document without it: same result kind and letters; (variant) a valid sheet of 1-4 colour rules in canonical spelling against a variant (spacing, comments, upper-case properties and hex digits, rgb() spelling, final ; dropped or doubled, unknown properties, @import / @media / @font-face / unparsable rule sets in between), via <style> or add_css: equal rich renderings; distinct by sha256(runs)',
+        rule='MC (parser model, CssSyntax.tla): every sheet of <= 4 (thorough 5) atoms over 14 (22) atoms - tokens incl. the child combinator, whole good rule sets and a block without selector - and of <= 5 (7) atoms over 8, and of <= 4 (6) atoms over the 8 of selector preludes (compounds, `>`, the unsupported `+` and `~`, commas, good rule sets): invariants on the model, then each sheet in <style> of a fixed document: well-formed sheets against the canonical text of their reference rules (variant), the others for totality, all against the colours the model predicts (drift); MC (enumeration): every sequence of <= 3 (thorough 4) CSS tokens from an alphabet of 26 (30) token spellings, as user sheet, agent sheet and <style> content; random, three shapes: (total) add_css / add_agent_css with truncations of valid sheets, token soup over the CSS token alphabet, byte-mutated sheets: Ok or CssParseError under a watchdog; (inert) a document with <style>s</style> (s without display / content / white-space / height / overflow) against the same document without it: same result kind and letters; (variant) a valid sheet of 1-4 colour rules in canonical spelling against a variant (spacing, comments, upper-case properties and hex digits, rgb() spelling, final ; dropped or doubled, unknown properties, @import / @media / @font-face / unparsable rule sets in between), via <style> or add_css: equal rich renderings; distinct by sha256(runs)',
         assumptions=['the character-level tokenizer is explored, not modelled; the statement level of the parser (rule sets, declarations, values, recovery) is modelled at token level in CssSyntax.tla (DESIGN.md section 11)'],
     ),
     'C18': dict(
